@@ -3,7 +3,7 @@ import vlib
 from checks import common_loops as cl, common_core as cc
 
 PID = "C13"
-RULE = ("One event loop, 3-12 other tasks (instant / busy / delay) around one target that is cancelled (0) while still queued behind a blocker, (1) while running, (2) while suspended in a delay, "
+RULE = ("One event loop, 3-12 other tasks (instant / busy / delay) around one target that is cancelled (0) while still queued behind a blocker (every other such case with two event loops: the other loop takes the cancelled task over while the waiter is already blocked on the loop it was submitted to), (1) while running, (2) while suspended in a delay, "
         "(3) forced schedule through the `cancel:before_signal` pause hook: the canceller is held between its running-coroutine lookup and the signal until the target has yielded the thread and another task runs there; (4) late cancel: the target was detached (handle dropped before it ran) and has finished, the cancel arrives while its former worker (pool of one) runs or is parked in another task. "
         "start/end stamps per task + join outcomes. Oracle: a target cancelled while queued never starts and its waiter is settled (not still blocked after 3 s, long after everything else finished); every other task starts, ends and joins with its own value. "
         "Cases whose cancel did not land in the intended phase are inconclusive. Distinct = (phase, others, workers).")
